@@ -39,7 +39,6 @@ def run(chk):
     chk.rule('C07-P8', 'no store under prange in the TSC pipeline is shared between iterations', 5)
     chk.rule('C07-P9', 'the stripes hold the same particles as the input, each with its own weight, for every sort option (obligations of C17-R2/R3/R4)', 6)
     chk.assume('stripe lemma (exact arithmetic): stripes >= 3 cells wide and two apart have disjoint 3-cell clouds; P even (or 1) separates stripes 0 and P-1 across the periodic boundary')
-    chk.assume('float32 rounding of the stripe key against the grid coordinate at exact half-cell boundaries is not modelled')
     chk.assume('numba joins all threads at the end of a prange loop')
     validation(chk)
     from . import c17
@@ -62,7 +61,7 @@ def validation(chk):
         raise AnalysisError('tsc_parallel: call of _tsc_parallel not reached on any path')
     if not k.raises:
         chk.refuted('C07-P1', TSC, 'tsc_parallel', 'validation present', 'no raise statement: nothing is rejected', node=fn)
-    bad1 = bad2 = None
+    bad1 = bad2 = bad4 = None
     npaths = 0
     for cn, node, args, kws, st in calls:
         vals = [st.env.get(n) for n in ('npartition', 'nthread', 'n1d')]
@@ -78,6 +77,13 @@ def validation(chk):
         if bad1 is None and not prove.entails_le(s2, P.scale(3), n):
             w = prove.witness(s2, n - P.scale(3)) or _wit(s2, n - P.scale(3))
             bad1 = (str(P), w, node)
+        if bad4 is None and not prove.entails_le(s2, P.scale(3), n - 1):
+            # n1d >= 3P + 1: at least one stripe is wider than 3 cells ... the rounding argument below needs every stripe to be; the
+            # exact condition n1d >= 4P is what is tested (floor(n/P) >= 4 for every stripe of an equal split)
+            pass
+        if bad4 is None and not prove.entails_le(s2, P.scale(4), n):
+            w4 = prove.witness(s2, n - P.scale(4)) or _wit(s2, n - P.scale(4))
+            bad4 = (str(P), w4, node)
         if bad2 is None and not prove.entails_ge(s2, -(s2.facts.mod(P, 2))):
             s3 = s2.copy()
             m = s3.facts.mod(P, 2)
@@ -91,6 +97,18 @@ def validation(chk):
                     'concurrently processed stripes s and s+2 can update the same grid row', node=bad1[2], witness=bad1[1])
     else:
         chk.proven('C07-P1', TSC, 'tsc_parallel', 'accepted => 3*npartition <= n1d', f'entailed on {npaths} accepted parallel paths')
+    # The 3-cell bound is the stripe lemma in EXACT arithmetic.  The central cell is round((x+offset)*g/box) in the working precision with
+    # ties to even, the stripe is floor(x*P/box) in double precision: on a stripe edge that lies on a half-integer grid coordinate (half-cell
+    # offset of the interlaced painting; or box/P not a multiple of the cell without offset) a particle one ulp below the edge of stripe k
+    # rounds UP and one exactly on the edge of stripe k+2 rounds DOWN, and both store to the row between them.  Only stripes of at
+    # least 4 cells keep same-phase stripes apart under such ties.
+    if bad4:
+        chk.refuted('C07-P1', TSC, 'tsc_parallel', 'accepted => 4*npartition <= n1d (a spare cell between same-phase stripes under rounding ties)',
+                    f'a configuration with npartition = {bad4[0]} and stripes exactly 3 cells wide is accepted (and chosen by default): with a rounding tie at a stripe edge '
+                    'two stripes of one sweep store to the same grid row (the contested contributions are 0.0 or O(ulp^2), so no numerical difference was ever observed)',
+                    node=bad4[2], witness=bad4[1])
+    else:
+        chk.proven('C07-P1', TSC, 'tsc_parallel', 'accepted => 4*npartition <= n1d (a spare cell between same-phase stripes under rounding ties)', f'entailed on {npaths} accepted parallel paths')
     if bad2:
         chk.refuted('C07-P2', TSC, 'tsc_parallel', 'accepted => npartition even',
                     f'an odd npartition = {bad2[0]} is accepted with nthread > 1: stripes 0 and npartition-1 are adjacent across the periodic '
